@@ -129,4 +129,23 @@ def policy_env_setup_calls(repo):
             and n.targets[0].id == n.value.args[1].id
         ):
             out.append(pe.functions[n.value.func.id])
+        # loop form: `for step in (f, g, h): params = step(date, params)`
+        if isinstance(n, ast.For) and isinstance(n.target, ast.Name) and len(n.body) == 1 and not n.orelse:
+            b = n.body[0]
+            seq = n.iter
+            if isinstance(seq, ast.Name):
+                seq = next((a.value for a in pe.tree.body if isinstance(a, ast.Assign) and isinstance(a.targets[0], ast.Name) and a.targets[0].id == seq.id), seq)
+            if (
+                isinstance(b, ast.Assign)
+                and isinstance(b.value, ast.Call)
+                and isinstance(b.value.func, ast.Name)
+                and b.value.func.id == n.target.id
+                and len(b.value.args) == 2
+                and all(isinstance(a, ast.Name) for a in b.value.args)
+                and isinstance(b.targets[0], ast.Name)
+                and b.targets[0].id == b.value.args[1].id
+                and isinstance(seq, (ast.Tuple, ast.List))
+                and all(isinstance(e, ast.Name) and e.id in pe.functions for e in seq.elts)
+            ):
+                out.extend(pe.functions[e.id] for e in seq.elts)
     return out
